@@ -240,6 +240,8 @@ def poly_eval(e: ast.AST, env: Dict[str, Poly]) -> Poly:
         if e.id in env:
             return env[e.id]
         return Poly.atom(e.id)
+    if isinstance(e, ast.UnaryOp) and isinstance(e.op, ast.USub):
+        return poly_eval(e.operand, env) * Poly.const(-1)
     if isinstance(e, ast.BinOp):
         if isinstance(e.op, ast.Add):
             return poly_eval(e.left, env) + poly_eval(e.right, env)
